@@ -9,9 +9,11 @@
 (* then run action by action (RenumberSys) and its result judged by the declarative layer.          *)
 (*                                                                                                  *)
 (* Refines:          the verdict is in Allowed.  "As the code is" (DevChain, DevDang, DevUnder =    *)
-(*                   TRUE) Allowed lists exactly the signatures of the known findings; "as          *)
-(*                   repaired" Allowed = {"ok"}.                                                     *)
-(* RepairedRefines:  the repaired variant (function form) is Acceptable on the same document.       *)
+(*                   FALSE since the fix: commits 15b16d5, c3b4cbb, 056314e, 07306e7) Allowed =      *)
+(*                   {"ok"}.  With the switches TRUE (cfg *_seeded: the repaired defects seeded      *)
+(*                   back into the design, a negative control) Allowed lists exactly the             *)
+(*                   signatures of the former findings.                                              *)
+(* RepairedRefines:  (seeded cfg) the variant without deviations is Acceptable on the same document. *)
 (* Consistent:       Acceptable <=> Fails = {} (the two formulations of the declarative layer).     *)
 (* FunctionForm:     the action-by-action run equals ImplRun.                                       *)
 (* With Emit = TRUE every completed case is printed as one JSON line for replay into lopdf.         *)
@@ -20,7 +22,7 @@ EXTENDS RenumberSys, Json, IOUtils, FiniteSetsExt
 CONSTANTS Layouts,      \* set of layout records (see Lay)
           DangIds,      \* ids offered as dangling targets (those that name an object are dropped)
           Starts,       \* starting_id values (0 is always offered for the empty document)
-          DevUnder,     \* TRUE = as the code is: `new_id - 1` on an empty document with start 0 panics
+          DevUnder,     \* TRUE = the repaired defect: `new_id - 1` on an empty document with start 0 panics
           Allowed,      \* verdicts the run may produce
           Emit, EmitMod
 
@@ -164,7 +166,7 @@ PagePairS    == PagePair /\ UNCHANGED <<lay, ids, slots>> /\ Took("PagePairS")
 PageFinishS  == PageFinish /\ UNCHANGED <<lay, ids, slots>> /\ Took("PageFinishS")
 DensePlanS   == DensePlan /\ UNCHANGED <<lay, ids, slots>> /\ Took("DensePlanS")
 DensePairS   == DensePair /\ UNCHANGED <<lay, ids, slots>> /\ Took("DensePairS")
-\* `new_id - 1`: with DevUnder = FALSE (repaired) an empty document with start 0 gets max_id 0
+\* `new_id.saturating_sub(1)`: with DevUnder = FALSE (the code as it is) an empty document with start 0 gets max_id 0
 DenseFinishS ==
     /\ DevUnder \/ start + Cardinality(live) # 0
     /\ DenseFinish /\ UNCHANGED <<lay, ids, slots>> /\ Took("DenseFinishS")
